@@ -98,7 +98,7 @@ def timing_probes(ctx, failures, tie_breaks):
 
 
 def run(ctx):
-    nprog = ctx.scale(1000, 3000)
+    nprog = ctx.scale(1000, 1500)
     ev, nontrivial, dist, failures, tie_breaks, samples = S.run_differential(
         ctx, FEATS, nprog, check_fn="check_c12", imports=S.IMPORTS + "\nFrom V Require Import C12.Model.", log=True,
         ok_codes=(0,), soft_codes={5: "prefix_only_ambiguous_arith_error", 6: "equal_up_to_cleanup_position"},
